@@ -35,6 +35,13 @@ func Init(job string) (*LQClient, error) {
 		return nil, err
 	}
 
+	// A local queue has one consumer: rows still CLAIMED when it starts were handed out by a run that
+	// was killed, or stopped while they sat in the consumer's buffer, and would never be handed out again.
+	if _, err := dbWrite.Exec("UPDATE urls SET status = 'FRESH', timestamp = strftime('%s', 'now') WHERE status = 'CLAIMED'"); err != nil {
+		logger.Error("error resetting claimed URLs", "err", err.Error(), "func", "lq.Init")
+		return nil, err
+	}
+
 	dbWriteSqlc := sqlc_model.New(dbWrite)
 
 	return &LQClient{
